@@ -2,17 +2,15 @@ import Driver.Proto
 import XsdataModel.Py.TblEnv
 import XsdataModel.Conv.Factory
 import XsdataModel.Conv.TblCEnv
+import XsdataModel.Conv.FloatRepr
 open Lean Proto Py Xs.Conv Xs.Dates
 
 namespace OpsConv
 
-/-- environment for one request: Unicode tables + the `repr(float(s))` answers
-the harness computed for the strings of this request -/
-def mkEnv (freprs : Json) : CEnv :=
-  tblCEnv fun s =>
-    match freprs.getObjVal? (String.ofList s) with
-    | .ok (.str r) => r.toList
-    | _ => "?missing-float-repr".toList
+/-- environment for every request: Unicode tables of the running interpreter and
+the exact `repr(float(s))` computed in Lean (`Conv/FloatRepr.lean`); the harness
+no longer supplies float reprs -/
+def mkEnv (_freprs : Json) : CEnv := tblCEnv (pyFloatReprD tblEnv)
 
 def optInts (j : Json) : Except String (List (Option Int)) := do
   let a ← asArr j
@@ -197,6 +195,11 @@ def run (op : String) (a : Json) : Option (Except String Json) :=
   | "conv.from_value" => some do
       let atm ← parseAtom (getField a "v")
       pure <| ok (jStr (fromValue tblEnv atm))
+  | "conv.float_repr" => some do
+      let s ← getStr a "s"
+      pure <| match pyFloatRepr tblEnv s with
+        | some r => ok (jStr r)
+        | none => err "ValueError"
   | "conv.float_lit" => some do
       let s ← getStr a "s"
       pure <| match pyFloatLit tblEnv s with
